@@ -269,12 +269,14 @@ def c08(ctx):
                 (1, 60, 0, 0, 2, "term1", "terminal"), (2, 60, 0, 0, 2, "term2", "terminal"), (3, 20, 0, 0, 2, "term3", "terminal"),
                 # K+Q / K+R against the lone king, defender to move, depth 6: forced mates of different lengths
                 # inside the horizon (quicker mate preferred, cut-offs at mate scores)
-                (6, 6, 0, 0, 1, "kxk6", "kxk")]
+                (6, 6, 0, 0, 1, "kxk6", "kxk"),
+                # pawn storms played on with ONE context: positions that differ only in the en-passant right
+                (3, 8, 14, 8, 1, "storm3seq", "storm")]
     else:
         plan = [(3, 150, 30, 5, 5, "d3", None), (4, 80, 20, 4, 4, "d4", None), (2, 60, 20, 6, 12, "d2mid", None),
                 (1, 300, 0, 0, 2, "bare1", "bare"), (2, 300, 40, 4, 3, "bare2", "bare"), (3, 200, 40, 4, 3, "bare3", "bare"), (4, 60, 10, 3, 2, "bare4", "bare"),
                 (1, 400, 0, 0, 2, "term1", "terminal"), (2, 400, 0, 0, 2, "term2", "terminal"), (3, 300, 0, 0, 2, "term3", "terminal"), (4, 100, 0, 0, 2, "term4", "terminal"),
-                (6, 12, 0, 0, 1, "kxk6", "kxk"), (7, 4, 0, 0, 1, "kxk7", "kxk")]
+                (6, 12, 0, 0, 1, "kxk6", "kxk"), (7, 4, 0, 0, 1, "kxk7", "kxk"), (3, 30, 60, 10, 1, "storm3seq", "storm"), (4, 10, 20, 8, 1, "storm4seq", "storm")]
     with ThreadPoolExecutor(max_workers=3) as ex:
         list(ex.map(lambda a: exact_batch(ctx, a[0], a[1], a[2], a[3], a[4], a[5], family=a[6]), plan))
     ctx.rule = ("roots: seeded random sparse positions (two kings + 1-5 men), half-move clock 0; search with a brand-new context, and sequences of successive searches of a game sharing ONE context "
